@@ -488,6 +488,8 @@ pub fn check(c: &Case) -> Verdict {
     v.classes = applied.clone();
     v.classes.sort();
     v.classes.dedup();
+    // "kind xN" instead of N repetitions
+    let applied: Vec<String> = v.classes.iter().map(|k| format!("{} x{}", k, applied.iter().filter(|a| *a == k).count())).collect();
     match ty.from_str(&doc) {
         Ok(got) if got == base => v,
         Ok(got) => Verdict::fail(format!("rewrites {:?} changed the value: original {:?} -> {:?}; rewritten {:?} -> {:?}", applied, original, base, doc, got)),
@@ -845,6 +847,18 @@ fn run(ctx: &Ctx) {
         Box::new((any_val(), 0u8..3, any::<bool>(), prop::collection::vec(any::<u8>(), 0..48), prop::collection::vec((prop::sample::select(TYPE_FREE_KINDS.to_vec()), any::<u16>(), any::<u16>()).prop_map(|(kind, site, arg)| Rw { kind, site, arg }), 1..5), prop::collection::vec((any::<u16>(), any::<u16>()), 0..4)).prop_map(|(value, level, expand_empty, choices, rewrites, noise)| DynRwCase { value, level, expand_empty, choices, rewrites, noise }))
     };
     ctx.run_proptest_with("scripted-targets-x-type-independent-rewrites", ctx.tier.pick(800_000, 6_000_000), dynrw, check_dyn);
+    // the same rewrite kind applied MANY times (130 / 270 comments, blanks between children, unknown
+    // children, unknown attributes ...): whatever the deserializer counts per skipped element,
+    // per comment or per attribute passes 128 and 256
+    let bulk = || {
+        Box::new((any_val(), 0u8..3, prop::sample::select(vec![0u8, 2, 10, 11, 11, 11]), prop::sample::select(vec![130usize, 270]), any::<u16>()).prop_map(|(value, level, kind, n, salt)| {
+            // `arg % 3` selects the shape of an unknown child (empty / text+element / nested same name):
+            // one shape per case, so that one skipping path is taken n times
+            let rewrites = (0..n).map(|k| Rw { kind, site: (k as u16).wrapping_mul(2503).wrapping_add(salt), arg: (k as u16).wrapping_mul(3).wrapping_add(salt % 3).wrapping_add((salt / 3 % 100) * 3) }).collect();
+            Case { value, level, expand_empty: salt % 2 == 0, rewrites }
+        }))
+    };
+    ctx.run_proptest_with("one-rewrite-kind-applied-130-or-270-times", ctx.tier.pick(6_000, 60_000), bulk, check);
     ctx.run_proptest_with("nil-documents-x-unknown-children", ctx.tier.pick(400_000, 4_000_000), nil, check_nil);
     // small documents: each rewrite kind at every applicable site
     let per_type = ctx.tier.pick(60usize, 1200);
